@@ -413,7 +413,8 @@ struct StorHarness : Harness
     }
 
     static void gen_cycle(Rng& g, std::vector<std::string>& ops, int slot,
-                          const std::string& kind, int cyc, bool close_running)
+                          const std::string& kind, int cyc, bool close_running,
+                          bool set_while_running = false)
     {
         char b[256];
         static const char* uris[] = { "rel", "filerel", "abs", "fileabs" };
@@ -466,6 +467,8 @@ struct StorHarness : Harness
         }
         prev_name[slot % 2] = this_name;
         prev_uri[slot % 2] = uri;
+        if (set_while_running)
+            setline += " force=1"; // the previous cycle was not stopped
         ops.push_back(setline);
         // frame ids are the caller's: they need not start at 0 in a file
         snprintf(b, sizeof(b), "start slot=%d fid=%llu", slot,
@@ -522,7 +525,7 @@ struct StorHarness : Harness
             std::string kind = kinds[g.below(4)];
             if (kind == "trash" && g.chance(0.7))
                 kind = kinds[g.below(3)];
-            int shape = (int)g.below(7);
+            int shape = (int)g.below(8);
             snprintf(b, sizeof(b), "open slot=0 kind=%s", kind.c_str());
             p.ops.push_back(b);
             if (shape == 6) {
@@ -541,6 +544,23 @@ struct StorHarness : Harness
                 p.ops.push_back("append slot=1 nf=1 w=5 h=3 t=0 vary=0 id=78");
                 p.ops.push_back("stop slot=1");
                 p.ops.push_back("close slot=1");
+            } else if (shape == 7) {
+                // configured again while running, then (perhaps) started and
+                // stopped, or closed as it is
+                gen_cycle(g, p.ops, 0, kind, 0, true);
+                snprintf(b, sizeof(b),
+                         "set slot=0 uri=%s name=again0 meta=%s px=1 py=1 force=1",
+                         g.chance(0.5) ? "rel" : "fileabs",
+                         kind == "tiffjson" || g.chance(0.5) ? "json5" : "none");
+                p.ops.push_back(b);
+                if (g.chance(0.7)) {
+                    p.ops.push_back("start slot=0 fid=0");
+                    std::string a = gen_append(g);
+                    snprintf(b, sizeof(b), a.c_str(), 0);
+                    p.ops.push_back(b);
+                    if (g.chance(0.7))
+                        p.ops.push_back("stop slot=0");
+                }
             } else
             if (shape == 0) {
                 // open - close
@@ -637,9 +657,15 @@ struct StorHarness : Harness
             p.ops.push_back(b);
         }
         int cycles = (int)g.range(1, 4);
+        bool cut[2] = { false, false }; // previous cycle left running
         for (int c = 0; c < cycles; ++c)
-            for (int s = 0; s < nslots; ++s)
-                gen_cycle(g, p.ops, s, kind, c, false);
+            for (int s = 0; s < nslots; ++s) {
+                // now and then a cycle is not stopped: the device is simply
+                // configured for the next file while still running
+                bool leave_running = c + 1 < cycles && g.chance(0.08);
+                gen_cycle(g, p.ops, s, kind, c, leave_running, cut[s]);
+                cut[s] = leave_running;
+            }
         for (int s = 0; s < nslots; ++s) {
             snprintf(b, sizeof(b), "close slot=%d", s);
             p.ops.push_back(b);
@@ -865,7 +891,7 @@ struct StorHarness : Harness
                                 nm);
                 probe("n.opens");
             } else if (op.name == "set") {
-                if (!s.dev || s.started)
+                if (!s.dev || (s.started && !op.i("force", 0)))
                     continue;
                 std::string name = op.s("name", "f");
                 if (op.has("nameh")) {
@@ -902,9 +928,22 @@ struct StorHarness : Harness
                   &props, 0, base.c_str(), base.size() + 1,
                   m.empty() ? (meta_empty_str ? "" : nullptr) : m.c_str(),
                   m.empty() ? (meta_empty_str ? 1 : 0) : m.size() + 1, px, 0);
+                const bool while_running = s.started;
                 enum DeviceStatusCode rc = storage_set(s.dev, &props);
                 storage_properties_destroy(&props);
                 s.configured = rc == Device_Ok;
+                if (while_running) {
+                    // the HAL lets a running device be configured again: the
+                    // device is then Armed for the new target and whatever it
+                    // was writing is over (its content is not judged, its
+                    // descriptors are)
+                    probe("reach.set_while_running");
+                    if (storage_get_state(s.dev) != DeviceState_Running) {
+                        s.started = false;
+                        s.can_restart = false;
+                        s.cycles++;
+                    }
+                }
                 // tiff-json insists on a JSON metadata string (it rejects the
                 // empty string that stands for "none"): that is input
                 // validation, not judged here
@@ -1318,7 +1357,9 @@ struct Reg
         c.rule =
           "a case is one generated life-cycle history (storage kind x shape: "
           "open-close, open-set-close, cycles, operations after a failure, "
-          "close while running) with one fault family; every ordinal of that "
+          "close while running, a second start or a set while running, a "
+          "second device taking over released descriptor numbers) with one "
+          "fault family; every ordinal of that "
           "family's call is swept (evaluations counts plans; "
           "n.fault_subruns counts executions); non-trivial = at least one "
           "faulty sub-run executed; distinct = distinct run fingerprint";
